@@ -459,9 +459,36 @@ def canon(t):
     return T(t.op, tuple(args), t.val)
 
 
+def abstract_apps(t, memo: dict):
+    """function applications replaced, bottom-up, by variables keyed by (name, normal forms of the arguments): applications with value-equal
+    arguments become the same variable, so the exact normal form can compare terms that contain them"""
+    if isinstance(t, int):
+        return num(t)
+    if t.op in ("num", "var", "fun", "pi"):
+        return t
+    args = [abstract_apps(a, memo) for a in t.args]
+    if t.op == "app":
+        forms = [normalize_safe(a) for a in args]
+        entries = memo.setdefault(t.val, [])
+        for old_forms, v_ in entries:
+            if len(old_forms) == len(forms) and all((hasattr(x, "eq") and hasattr(y, "eq") and x.eq(y)) or repr(x) == repr(y) for x, y in zip(old_forms, forms)):
+                return v_
+        v_ = var(f"@app{sum(len(e) for e in memo.values())}:{t.val}")
+        entries.append((forms, v_))
+        return v_
+    return T(t.op, tuple(args), t.val)
+
+
 def same_value(a, b) -> bool:
     """value equality of two factor terms: exact normal form where there is one, otherwise the same operator over value-equal arguments"""
     a, b = canon(a), canon(b)
+    memo: dict = {}
+    try:
+        a2, b2 = abstract_apps(a, memo), abstract_apps(b, memo)
+        if repr(a2) == repr(b2) or same_terms(a2, b2):
+            return True
+    except AnalysisError:
+        pass
     if repr(a) == repr(b):
         return True
     try:
